@@ -421,7 +421,15 @@ def oracle_edited(case):
     out.nontrivial = bool(feats)
     label = f"{case['base']}+{[o['op'] for o in case['ops']]}"
     partnered = bool(root.get("withStandard"))
-    roundtrips(sch, out, label, unmerged=partnered, tmp=tmpdir())
+    got = roundtrips(sch, out, label, unmerged=partnered, tmp=tmpdir())
+    # second generation: a schema that was itself LOADED from its unmerged form (the loader grafted the library
+    # onto its standard partner) is a schema like any other and must survive the merged text formats
+    if "rooted" in feats and not out.violations:
+        for key in (("mediawiki", "unmerged"), ("xml", "unmerged")):
+            if key in got:
+                roundtrips(got[key], out, f"{label} reloaded-from-{key[0]}-unmerged", formats=("mediawiki", "xml"),
+                           unmerged=False, tmp=tmpdir())
+                break
     try:
         saved = ET.fromstring(sch.get_as_xml_string(save_merged=True))
     except Exception as exc:  # noqa
